@@ -483,12 +483,16 @@ def c16():
                       "prunable MMR, spent leaves pruned but not compacted: the segment from_pmmr(prunable) produces validates against the root under EVERY unspent bitmap (whole segment spent, sibling subtree spent too, partial, none)",
                       "%d leaves (symbolic contents), segment height %d index %d, symbolic unspent bitmap over the leaves" % (n, h, idx),
                       env={"VH_NLEAF": n, "VH_SEGH": h, "VH_SEGIDX": idx}, tag="_n%d_h%d_i%d" % (n, h, idx), est=1500, cap_s=3600, loops=HL, mem_est_gb=12))
-    for n, h, idx, hpos, tiers in [(8, 1, 0, 6, "qt"), (8, 1, 0, 14, "qt"), (8, 1, 1, 6, "qt"), (8, 0, 2, 6, "t"), (8, 1, 2, 13, "t"), (16, 2, 0, 14, "t"), (16, 2, 0, 30, "t"), (6, 1, 0, 6, "t")]:
+    for n, h, idx, hpos, tiers in [(8, 1, 0, 6, "qt"), (8, 1, 0, 14, "qt"), (8, 1, 1, 6, "qt"), (8, 0, 2, 6, "t"), (8, 1, 2, 13, "t"), (16, 2, 0, 14, "qt"), (16, 2, 0, 30, "qt"), (6, 1, 0, 6, "t"), (16, 1, 3, 14, "t"), (16, 2, 2, 29, "t")]:
         obs.append(ob("c16::pruned_segment_parent_covers_only_spent_leaves", tiers, 8,
                       "a fully spent segment carrying one hash at an ancestor of its root: first_unpruned_parent (the hash validate() checks the proof against) accepts the ancestor exactly when no leaf under it is unspent in the bitmap - an omitted unspent leaf (leftmost, middle or rightmost) is refused; unspent leaves of the segment without data are refused",
                       "%d leaves, segment height %d index %d, hash at position %d, every unspent bitmap, any hash value" % (n, h, idx, hpos),
                       env={"VH_NLEAF": n, "VH_SEGH": h, "VH_SEGIDX": idx, "VH_HPOS": hpos}, tag="_n%d_h%d_i%d_p%d" % (n, h, idx, hpos), est=200,
                       loops=dict(HL, peak_map_height=66, pruned_segment_parent=20), mem_est_gb=6))
+    obs.append(ob("c16::prunable_segment_root_needs_unspent_leaves", "qt", 10,
+                  "a height-2 segment carrying an arbitrary subset of its four leaves plus both height-1 parent hashes: Segment::root (first step of validate) succeeds only if every leaf the bitmap marks unspent is carried, and always when all four are carried",
+                  "8-leaf MMR, segment (2, 0), every subset of carried leaves, every unspent bitmap, symbolic leaf data and hashes", est=200,
+                  loops=dict(HL, peak_map_height=66, prunable_segment_root=10), mem_est_gb=8))
     for n, h, idx, tiers in [(2, 0, 0, "t"), (3, 1, 0, "t"), (3, 1, 1, "t")]:
         obs.append(ob("c16::segment_sound", tiers, 8,
                       "under the ideal hash: changing a leaf's data or position, a proof hash, dropping a leaf or proof hash, or the identifier makes validate fail  [thorough-tier ATTEMPT: did not finish in 30 min at 3 leaves]",
